@@ -353,7 +353,11 @@ impl<'a> Gen<'a> {
                 let e = self.scalar(scope, K::T, depth - 1);
                 let pat = if self.cfg.tags { self.text_val() } else { X::Text(self.rng.pick(&["a%", "%c", "_", "a!%c", "%"]).to_string()) };
                 let esc = if self.rng.chance(1, 3) { Some('!') } else { None };
-                X::Like(b(e), self.rng.chance(1, 4), b(pat), esc)
+                if !self.cfg.exec && self.cfg.is(Dialect::Postgres) && self.rng.chance(1, 3) {
+                    X::ILike(b(e), self.rng.chance(1, 4), b(pat), esc)
+                } else {
+                    X::Like(b(e), self.rng.chance(1, 4), b(pat), esc)
+                }
             }
             9 => {
                 let e = self.scalar(scope, k, depth - 1);
